@@ -379,11 +379,28 @@ func (u *Unit) execBody(fr *Frame, st0 *State) []retPoint {
 			}
 			fr.vals[phi] = v
 		}
+		// assertions at labelled statements (cut points without havoc)
+		if fr.con != nil && li == nil {
+			var ats []*Clause
+			for _, cl := range fr.con.clauses {
+				if cl.kind == "at" && cl.at == b.Comment {
+					ats = append(ats, cl)
+				}
+			}
+			for _, cl := range ats {
+				g := u.evalClause(fr, st, cl, nil)
+				u.oblige("assert", cl.at+"-"+labelOr(cl, ats), st, g, token.NoPos, cl.text)
+			}
+		}
 		// straight-line instructions
 		alive := true
 		for _, ins := range b.Instrs {
 			if _, ok := ins.(*ssa.Phi); ok {
 				continue
+			}
+			switch ins.(type) {
+			case *ssa.If, *ssa.Jump, *ssa.Return:
+				u.callAsserts(fr, st, b)
 			}
 			switch x := ins.(type) {
 			case *ssa.If:
@@ -1210,5 +1227,44 @@ func (u *Unit) rangeAliases(fr *Frame) {
 				}
 			}
 		}
+	}
+}
+
+// callAsserts: `at call NAME#K assert E` clauses are checked at the end of the
+// basic block that contains the call (after its results were stored).
+func (u *Unit) callAsserts(fr *Frame, st *State, b *ssa.BasicBlock) {
+	if fr.con == nil {
+		return
+	}
+	var ats []*Clause
+	for _, cl := range fr.con.clauses {
+		if cl.kind != "at" || !cl.callPos.IsValid() {
+			continue
+		}
+		for _, ins := range b.Instrs {
+			if c, ok := ins.(*ssa.Call); ok && c.Pos() != token.NoPos {
+				// the call instruction's position is that of its left parenthesis
+				if c.Common().Pos() == cl.callPos {
+					ats = append(ats, cl)
+				}
+			}
+		}
+	}
+	for _, cl := range ats {
+		env := u.frameEnv(fr, st, nil)
+		for _, ins := range b.Instrs {
+			if c, ok := ins.(*ssa.Call); ok && c.Common().Pos() == cl.callPos {
+				switch v := fr.vals[c].(type) {
+				case Tuple:
+					for i, x := range v {
+						env.vars[fmt.Sprintf("callResult%d", i)] = x
+					}
+				default:
+					env.vars["callResult"] = v
+				}
+			}
+		}
+		g := u.evalIn(env, cl)
+		u.oblige("assert", strings.TrimPrefix(cl.at, "call:")+"-"+labelOr(cl, ats), st, g, token.NoPos, cl.text)
 	}
 }
